@@ -120,7 +120,9 @@ def relocate (fs : FS Rel) : FS Rel :=
 /-- op `fsseq`: a sequence of commands on one budget; the tree after each -/
 def handleFsSeq (j : Json) : Json :=
   let v := variantsOf (jstr j "variant")
-  let fs₀ : FS Rel := (parseShape (jget j "shape")).fs id
+  -- "extra": files of the user's own in the budget folder that the model can name (".gitignore")
+  let gitignore := (jarr j "extra").any fun e => asStr e == "gitignore"
+  let fs₀ : FS Rel := (parseShape (jget j "shape")).fsWith gitignore id
   let fs₀ := if jstr j "layout" == "new" then relocate fs₀ else fs₀
   let progs := (jarr j "programs").map fun p => parseProg (asStr p)
   let (_, trees) := progs.foldl (fun (acc : FS Rel × List Json) p =>
